@@ -1,4 +1,5 @@
 import Solvor.Lp.Lemmas
+import Solvor.Lp.MilpLemmas
 /-!
 Lp: property theorems of C03 (LP verdicts and optima).
 
@@ -279,6 +280,382 @@ theorem residual_least {m n : ℕ} (Q : LPF m n) (x : Fin n → ℚ) (s : Fin m 
     nlinarith [sq_nonneg (s i)]
 
 end checkers
+
+/-! ## C04 — MILP -/
+section milp
+
+/-- **[C] isFeasible_iff**: the mirror of `_is_feasible` accepts exactly the points that are
+non-negative, integral on the integer variables and satisfy the rows, each within `eps`. -/
+theorem isFeasible_iff (P : LP) (ints : List ℕ) (eps : ℚ) (x : Vec) (hints : ∀ j ∈ ints, j < P.n) :
+    isFeasible P ints eps x = true ↔ P.toF.MilpFeasTol (intSet P.n ints) eps (vecF P.n x) := by
+  unfold isFeasible LPF.MilpFeasTol
+  simp only [Bool.and_eq_true, allTo_iff, List.all_eq_true, Bool.not_eq_true', decide_eq_false_iff_not,
+    not_lt, and_assoc]
+  refine and_congr Iff.rfl (and_congr ?_ ?_)
+  · constructor
+    · intro h j hj
+      exact (roundDist_le_iff _ _).mp (h j.val hj)
+    · intro h j hj
+      exact (roundDist_le_iff _ _).mpr (h ⟨j, hints j hj⟩ hj)
+  · constructor
+    · intro h i; have := h i; rw [rowDot_eq] at this; exact this
+    · intro h i; rw [rowDot_eq]; exact h i
+
+example : isFeasible ⟨[[1, 1]], [3], [1, 1]⟩ [0] (1 / 1000000) [2, 1 / 2] = true := by decide +kernel
+
+/-- exact integer-feasibility is the `eps = 0` case of the filter -/
+theorem milpFeasTol_zero {m n : ℕ} (Q : LPF m n) (I : Fin n → Prop) (x : Fin n → ℚ) :
+    Q.MilpFeasTol I 0 x ↔ Q.MilpFeasible I x := by
+  unfold LPF.MilpFeasTol LPF.MilpFeasible LPF.Feasible
+  simp only [neg_zero, add_zero, abs_nonpos_iff, sub_eq_zero]
+  constructor
+  · rintro ⟨h1, h2, h3⟩; exact ⟨⟨h1, h3⟩, h2⟩
+  · rintro ⟨⟨h1, h3⟩, h2⟩; exact ⟨h1, h2, h3⟩
+
+/-- **[C] branch_covers**: the floor/ceil children of a node cover every point of the node's box
+whose branching coordinate is an integer – no integer-feasible point is dropped by branching. -/
+theorem branch_covers {n : ℕ} (B : Box n) (x : Fin n → ℚ) (j : Fin n) (v : ℚ) (hx : B.Mem x)
+    (hz : ∃ z : ℤ, x j = z) : (B.left j v).Mem x ∨ (B.right j v).Mem x := by
+  obtain ⟨z, hz⟩ := hz
+  by_cases h : (z : ℚ) ≤ v
+  · left
+    intro k
+    refine ⟨(hx k).1, fun hh hk => ?_⟩
+    by_cases hkj : k = j
+    · subst hkj
+      simp only [Box.left, Function.update_self, Option.some.injEq] at hk
+      rw [← hk, hz]
+      exact_mod_cast Rat.le_floor_iff.mpr h
+    · simp only [Box.left, Function.update_of_ne hkj] at hk
+      exact (hx k).2 hh hk
+  · right
+    intro k
+    refine ⟨?_, (hx k).2⟩
+    by_cases hkj : k = j
+    · subst hkj
+      simp only [Box.right, Function.update_self]
+      rw [hz]
+      exact_mod_cast Rat.ceil_le_iff.mpr (not_le.mp h).le
+    · simp only [Box.right, Function.update_of_ne hkj]
+      exact (hx k).1
+
+example : (⟨fun _ => 0, fun _ => none⟩ : Box 1).Mem (fun _ => 2) := fun _ => ⟨by norm_num, by simp⟩
+
+/-- **[C] milpOracle_correct**: if the box certificate and the certificate of every run are accepted
+(`oracleOk`), then
+* a run with verdict UNBOUNDED ⇒ the MILP has integer-feasible points of arbitrarily good objective;
+* otherwise, no OPTIMAL run ⇒ no integer-feasible point exists, and
+* otherwise the least objective `v` over the OPTIMAL runs with its point `x` is the MILP optimum:
+  `x` is integer-feasible, `c·x = v`, and no integer-feasible point has a smaller objective.
+(`solve` is arbitrary: only its certificates matter.) -/
+theorem milpOracle_correct (solve : LP → LpOut) (P : LP) (ints ub : List ℕ) (ys : List Vec)
+    (hwf : P.A.length = P.b.length) (hints : ∀ j ∈ ints, j < P.n)
+    (hok : oracleOk solve P ints ub ys = true) :
+    (oracleUnb solve P ints ub = true →
+      ∀ M : ℚ, ∃ x, P.toF.MilpFeasible (intSet P.n ints) x ∧ P.toF.obj x < M) ∧
+    (oracleUnb solve P ints ub = false →
+      match oracleBest solve P ints ub with
+      | none => ∀ x, ¬ P.toF.MilpFeasible (intSet P.n ints) x
+      | some (v, x) =>
+        P.toF.MilpFeasible (intSet P.n ints) (vecF P.n x) ∧ P.toF.obj (vecF P.n x) = v ∧
+        ∀ x', P.toF.MilpFeasible (intSet P.n ints) x' → v ≤ P.toF.obj x') := by
+  unfold oracleOk at hok
+  rw [Bool.and_eq_true, List.all_eq_true] at hok
+  obtain ⟨hbox, hcert⟩ := hok
+  have hlenub := chkBox_length P ints ub ys hbox
+  -- every run belongs to an assignment of the right length and is certified
+  have hrun : ∀ r ∈ oracleRuns solve P ints ub,
+      ints.length = r.1.length ∧ (P.fix ints r.1).toF.Verdict r.2.status := by
+    intro r hr
+    refine ⟨?_, certifies_sound _ _ (hcert r hr)⟩
+    simp only [oracleRuns, List.mem_map] at hr
+    obtain ⟨a, ha, rfl⟩ := hr
+    rw [assignments_length ub a ha, hlenub]
+  -- a run for every integer-feasible point
+  have hcover : ∀ x', P.toF.MilpFeasible (intSet P.n ints) x' →
+      ∃ r ∈ oracleRuns solve P ints ub, (P.fix ints r.1).toF.Feasible x' := by
+    intro x' hx'
+    obtain ⟨a, ha, hf⟩ := milp_fixFeasible P hwf ints ub ys hints hbox x' hx'
+    exact ⟨(a, solve (P.fix ints a)), List.mem_map.mpr ⟨a, ha, rfl⟩, hf⟩
+  constructor
+  · intro hu M
+    simp only [oracleUnb, List.any_eq_true, decide_eq_true_eq] at hu
+    obtain ⟨r, hr, hs⟩ := hu
+    obtain ⟨hlen, hv⟩ := hrun r hr
+    rw [hs] at hv
+    obtain ⟨x, hxf, hxM⟩ := hv.2 M
+    exact ⟨x, fixFeasible_milp P hwf ints r.1 hlen hints x hxf, hxM⟩
+  · intro hu
+    have hnu : ∀ r ∈ oracleRuns solve P ints ub, r.2.status ≠ .UNBOUNDED := by
+      intro r hr hs
+      have : oracleUnb solve P ints ub = true := by
+        simp only [oracleUnb, List.any_eq_true, decide_eq_true_eq]; exact ⟨r, hr, hs⟩
+      rw [hu] at this; cases this
+    -- the run of an integer-feasible point is OPTIMAL and bounds its objective
+    have hopt : ∀ x', P.toF.MilpFeasible (intSet P.n ints) x' →
+        ∃ r ∈ oracleRuns solve P ints ub, r.2.status = .OPTIMAL ∧ P.objAt r.2.x ≤ P.toF.obj x' := by
+      intro x' hx'
+      obtain ⟨r, hr, hf⟩ := hcover x' hx'
+      refine ⟨r, hr, ?_⟩
+      have hc := hcert r hr
+      obtain ⟨_, hv⟩ := hrun r hr
+      cases hs : r.2.status with
+      | OPTIMAL =>
+        refine ⟨rfl, ?_⟩
+        unfold certifies at hc
+        rw [hs] at hc
+        have := (chkOptimal_sound (P.fix ints r.1) _ _ hc).1.2 x' hf
+        rw [← objAt_eq] at this
+        exact this
+      | INFEASIBLE => rw [hs] at hv; exact absurd hf (hv x')
+      | UNBOUNDED => exact absurd hs (hnu r hr)
+      | FEASIBLE => rw [hs] at hv; exact hv.elim
+      | MAX_ITER => rw [hs] at hv; exact hv.elim
+    have hb := foldl_best P (oracleRuns solve P ints ub) none
+    unfold oracleBest
+    cases hbest : List.foldl (bestStep P) none (oracleRuns solve P ints ub) with
+    | none =>
+      rw [hbest] at hb
+      simp only at hb ⊢
+      intro x' hx'
+      obtain ⟨r, hr, hs, _⟩ := hopt x' hx'
+      exact hb.2 r hr hs
+    | some p =>
+      obtain ⟨v, x⟩ := p
+      rw [hbest] at hb
+      simp only at hb ⊢
+      obtain ⟨h1, _, h3⟩ := hb
+      rcases h1 with h1 | ⟨r, hr, hs, hx, hvx⟩
+      · cases h1
+      · obtain ⟨hlen, _⟩ := hrun r hr
+        have hc := hcert r hr
+        unfold certifies at hc
+        rw [hs] at hc
+        have hfe := (chkOptimal_sound (P.fix ints r.1) _ _ hc).1.1
+        refine ⟨?_, ?_, ?_⟩
+        · rw [hx]; exact fixFeasible_milp P hwf ints r.1 hlen hints _ hfe
+        · rw [hvx, hx, objAt_eq]
+        · intro x' hx'
+          obtain ⟨r', hr', hs', hle⟩ := hopt x' hx'
+          exact le_trans (h3 r' hr' hs') hle
+
+/-- non-vacuity: `max x + y, 2x + 2y ≤ 3, x, y ∈ {0,1}`; the box `[1,1]` with the dual vectors
+`[1/2]`, the exact simplex as solver: the oracle accepts and reports the optimum `−1` (minimising `−x−y`). -/
+example : oracleOk exactSolve ⟨[[2, 2]], [3], [-1, -1]⟩ [0, 1] [1, 1] [[1 / 2], [1 / 2]] = true ∧
+    (oracleBest exactSolve ⟨[[2, 2]], [3], [-1, -1]⟩ [0, 1] [1, 1]).map (·.1) = some (-1) := by
+  decide +kernel
+
+/-- The relaxation's Farkas certificate already settles `INFEASIBLE` for the MILP. -/
+theorem relaxation_infeasible {m n : ℕ} (Q : LPF m n) (I : Fin n → Prop) (h : Q.Infeasible) :
+    ∀ x, ¬ Q.MilpFeasible I x := fun x hx => h x hx.1
+
+/-! ### abstract branch and bound -/
+section bnb
+variable {Pt : Type} (Feas Acc : Pt → Prop) (obj : Pt → ℚ) (eps : ℚ)
+
+theorem offer_spec (inc : Option (Pt × ℚ)) (q : Pt) (w : ℚ) :
+    ∃ p v, BState.offer inc q w = some (p, v) ∧ v ≤ w ∧ (∀ p0 v0, inc = some (p0, v0) → v ≤ v0) ∧
+      ((p, v) = (q, w) ∨ inc = some (p, v)) := by
+  unfold BState.offer
+  cases inc with
+  | none => exact ⟨q, w, rfl, le_refl _, by simp, Or.inl rfl⟩
+  | some pv =>
+    obtain ⟨p0, v0⟩ := pv
+    by_cases h : w < v0
+    · simp only [h, if_true]
+      exact ⟨q, w, rfl, le_refl _, fun _ _ e => by cases e; exact h.le, Or.inl rfl⟩
+    · simp only [h, if_false]
+      exact ⟨p0, v0, rfl, not_lt.mp h, fun _ _ e => by cases e; exact le_refl _, Or.inr rfl⟩
+
+/-- **[C] bnb_invariant**: every step of the loop preserves the invariant – each open node's bound
+is a lower bound of its region, every integer-feasible point that beats the incumbent by more than
+`eps` lies in the region of some open node, and the incumbent passed the filter with `obj = c·x`. -/
+theorem bnb_invariant (heps : 0 ≤ eps) (s s' : BState Pt) (h : BInv Feas Acc obj eps s)
+    (st : BStep Feas Acc obj eps s s') : BInv Feas Acc obj eps s' := by
+  obtain ⟨hb, hc, hi⟩ := h
+  -- coverage survives the removal of a node that contains no point better than the incumbent
+  have drop : ∀ (inc : Option (Pt × ℚ)) (l₁ : List (BNode Pt)) (N : BNode Pt) (l₂ : List (BNode Pt)),
+      (∀ y, Feas y → (∀ p v, inc = some (p, v) → obj y < v - eps) →
+        ∃ M ∈ l₁ ++ N :: l₂, M.region y) →
+      (∀ y, Feas y → N.region y → (∀ p v, inc = some (p, v) → obj y < v - eps) → False) →
+      ∀ y, Feas y → (∀ p v, inc = some (p, v) → obj y < v - eps) → ∃ M ∈ l₁ ++ l₂, M.region y := by
+    intro inc l₁ N l₂ hcov hno y hy hbt
+    obtain ⟨M, hM, hr⟩ := hcov y hy hbt
+    rcases List.mem_append.mp hM with h1 | h1
+    · exact ⟨M, List.mem_append_left _ h1, hr⟩
+    · rcases List.mem_cons.mp h1 with rfl | h2
+      · exact (hno y hy hr hbt).elim
+      · exact ⟨M, List.mem_append_right _ h2, hr⟩
+  have sub : ∀ (l₁ : List (BNode Pt)) (N : BNode Pt) (l₂ : List (BNode Pt)),
+      ∀ M ∈ l₁ ++ l₂, M ∈ l₁ ++ N :: l₂ := by
+    intro l₁ N l₂ M hM
+    rcases List.mem_append.mp hM with h | h
+    · exact List.mem_append_left _ h
+    · exact List.mem_append_right _ (List.mem_cons_of_mem _ h)
+  -- a point that beats the offered incumbent beats the old one
+  have beats : ∀ (inc : Option (Pt × ℚ)) (q : Pt) (w : ℚ) (y : Pt),
+      (∀ p v, BState.offer inc q w = some (p, v) → obj y < v - eps) →
+      obj y < w - eps ∧ ∀ p v, inc = some (p, v) → obj y < v - eps := by
+    intro inc q w y hbt
+    obtain ⟨p', v', he, hle, hmono, _⟩ := offer_spec inc q w
+    have := hbt p' v' he
+    exact ⟨by linarith, fun p v e => by have := hmono p v e; linarith⟩
+  have offered : ∀ (inc : Option (Pt × ℚ)) (q : Pt) (w : ℚ), Acc q → obj q = w →
+      (∀ p v, inc = some (p, v) → Acc p ∧ obj p = v) →
+      ∀ p v, BState.offer inc q w = some (p, v) → Acc p ∧ obj p = v := by
+    intro inc q w hacc hobj hinc p v e
+    obtain ⟨p', v', he, _, _, hwho⟩ := offer_spec inc q w
+    rw [he] at e; cases e
+    rcases hwho with h | h
+    · cases h; exact ⟨hacc, hobj⟩
+    · exact hinc _ _ h
+  cases st with
+  | prune p v l₁ N l₂ hpr =>
+    refine ⟨fun M hM => hb M (sub l₁ N l₂ M hM), ?_, hi⟩
+    refine drop _ l₁ N l₂ hc (fun y hy hr hbt => ?_)
+    have h1 := hb N (List.mem_append_right _ List.mem_cons_self) y hy hr
+    have h2 := hbt p v rfl
+    linarith
+  | infeasible inc l₁ N l₂ hinf =>
+    exact ⟨fun M hM => hb M (sub l₁ N l₂ M hM), drop _ l₁ N l₂ hc (fun y hy hr _ => hinf y hy hr), hi⟩
+  | boundDrop p v l₁ N l₂ r hr hvr =>
+    refine ⟨fun M hM => hb M (sub l₁ N l₂ M hM), ?_, hi⟩
+    refine drop _ l₁ N l₂ hc (fun y hy hry hbt => ?_)
+    have h1 := hr y hy hry
+    have h2 := hbt p v rfl
+    linarith
+  | integral inc l₁ N l₂ q r hr hacc hobj =>
+    refine ⟨fun M hM => hb M (sub l₁ N l₂ M hM), ?_, offered inc q r hacc hobj hi⟩
+    intro y hy hbt
+    obtain ⟨hyw, hold⟩ := beats inc q r y hbt
+    obtain ⟨M, hM, hrM⟩ := hc y hy hold
+    rcases List.mem_append.mp hM with h1 | h1
+    · exact ⟨M, List.mem_append_left _ h1, hrM⟩
+    · rcases List.mem_cons.mp h1 with rfl | h2
+      · have := hr y hy hrM
+        exfalso; linarith
+      · exact ⟨M, List.mem_append_right _ h2, hrM⟩
+  | branch inc l₁ N l₂ L R r hr hcov hLN hRN hL hR =>
+    refine ⟨?_, ?_, hi⟩
+    · intro M hM y hy hrM
+      rcases List.mem_cons.mp hM with rfl | hM
+      · rw [hL]; exact hr y hy (hLN y hrM)
+      · rcases List.mem_cons.mp hM with rfl | hM
+        · rw [hR]; exact hr y hy (hRN y hrM)
+        · exact hb M (sub l₁ N l₂ M hM) y hy hrM
+    · intro y hy hbt
+      obtain ⟨M, hM, hrM⟩ := hc y hy hbt
+      rcases List.mem_append.mp hM with h1 | h1
+      · exact ⟨M, List.mem_cons_of_mem _ (List.mem_cons_of_mem _ (List.mem_append_left _ h1)), hrM⟩
+      · rcases List.mem_cons.mp h1 with rfl | h2
+        · rcases hcov y hy hrM with h | h
+          · exact ⟨L, List.mem_cons_self, h⟩
+          · exact ⟨R, List.mem_cons_of_mem _ List.mem_cons_self, h⟩
+        · exact ⟨M, List.mem_cons_of_mem _ (List.mem_cons_of_mem _ (List.mem_append_right _ h2)), hrM⟩
+  | heuristic inc l q hacc =>
+    refine ⟨hb, fun y hy hbt => hc y hy (beats inc q (obj q) y hbt).2, offered inc q (obj q) hacc rfl hi⟩
+
+/-- the invariant holds along every run of the loop -/
+theorem bnb_reachable (heps : 0 ≤ eps) (s s' : BState Pt) (h : BInv Feas Acc obj eps s)
+    (run : Relation.ReflTransGen (BStep Feas Acc obj eps) s s') : BInv Feas Acc obj eps s' := by
+  induction run with
+  | refl => exact h
+  | tail _ st ih => exact bnb_invariant Feas Acc obj eps heps _ _ ih st
+
+/-- the start of the loop: one root node whose bound is the root LP value, no incumbent -/
+theorem bnb_init (root : BNode Pt) (hroot : ∀ y, Feas y → root.region y)
+    (hbound : ∀ y, Feas y → root.bound ≤ obj y) : BInv Feas Acc obj eps ⟨none, [root]⟩ := by
+  refine ⟨fun N hN y hy _ => ?_, fun y hy _ => ⟨root, List.mem_singleton.mpr rfl, hroot y hy⟩,
+    fun p v e => by cases e⟩
+  rw [List.mem_singleton.mp hN]; exact hbound y hy
+
+/-- **[C] bnb_optimal**: tree empty ⇒ the incumbent is optimal within `eps` among all
+integer-feasible points (status `OPTIMAL` at the end of the loop). -/
+theorem bnb_optimal (s : BState Pt) (h : BInv Feas Acc obj eps s) (hempty : s.nodes = [])
+    (p : Pt) (v : ℚ) (hinc : s.inc = some (p, v)) :
+    Acc p ∧ obj p = v ∧ ∀ y, Feas y → v - eps ≤ obj y := by
+  obtain ⟨_, hc, hi⟩ := h
+  refine ⟨(hi p v hinc).1, (hi p v hinc).2, fun y hy => ?_⟩
+  by_contra hlt
+  obtain ⟨N, hN, _⟩ := hc y hy (fun p' v' e => by rw [hinc] at e; cases e; exact not_le.mp hlt)
+  rw [hempty] at hN; cases hN
+
+/-- **[C] bnb_infeasible**: tree empty and no incumbent ⇒ no integer-feasible point exists. -/
+theorem bnb_infeasible (s : BState Pt) (h : BInv Feas Acc obj eps s) (hempty : s.nodes = [])
+    (hinc : s.inc = none) : ∀ y, ¬ Feas y := by
+  intro y hy
+  obtain ⟨N, hN, _⟩ := h.2.1 y hy (fun p v e => by rw [hinc] at e; cases e)
+  rw [hempty] at hN; cases hN
+
+/-- **[C] heuristic_incumbent_feasible**: along every run, whatever the heuristics proposed, the
+incumbent passed the filter and its recorded objective is `c·x`. -/
+theorem heuristic_incumbent_feasible (heps : 0 ≤ eps) (s s' : BState Pt) (h : BInv Feas Acc obj eps s)
+    (run : Relation.ReflTransGen (BStep Feas Acc obj eps) s s') (p : Pt) (v : ℚ)
+    (hinc : s'.inc = some (p, v)) : Acc p ∧ obj p = v :=
+  (bnb_reachable Feas Acc obj eps heps s s' h run).2.2 p v hinc
+
+/-- the early `gap < gap_tol` return and the `FEASIBLE` exit: with `L` below every open bound, every
+integer-feasible point has objective at least `min (v − eps) L`. -/
+theorem bnb_gap (s : BState Pt) (h : BInv Feas Acc obj eps s) (p : Pt) (v L : ℚ)
+    (hinc : s.inc = some (p, v)) (hL : ∀ N ∈ s.nodes, L ≤ N.bound) :
+    ∀ y, Feas y → min (v - eps) L ≤ obj y := by
+  intro y hy
+  by_cases hlt : obj y < v - eps
+  · obtain ⟨N, hN, hr⟩ := h.2.1 y hy (fun p' v' e => by rw [hinc] at e; cases e; exact hlt)
+    exact le_trans (min_le_right _ _) (le_trans (hL N hN) (h.1 N hN y hy hr))
+  · exact le_trans (min_le_left _ _) (not_lt.mp hlt)
+
+/-- non-vacuity: points `ℤ`, everything feasible in `{0,1,2}`, objective `y ↦ −y`; root, one
+`integral` step installing `2`; the tree is then empty and `bnb_optimal` applies. -/
+example : ∀ y : ℤ, (0 ≤ y ∧ y ≤ 2) → (-2 : ℚ) - 0 ≤ -(y : ℚ) := by
+  have root : BNode ℤ := ⟨fun _ => True, -2⟩
+  have h0 : BInv (fun y : ℤ => 0 ≤ y ∧ y ≤ 2) (fun _ => True) (fun y => -(y : ℚ)) 0
+      ⟨none, [] ++ (⟨fun _ => True, -2⟩ : BNode ℤ) :: []⟩ :=
+    bnb_init _ _ _ 0 ⟨fun _ => True, -2⟩ (fun _ _ => trivial) (fun y hy => by
+      have : (y : ℚ) ≤ 2 := by exact_mod_cast hy.2
+      show (-2 : ℚ) ≤ -(y : ℚ); linarith)
+  have h1 := bnb_invariant _ _ _ 0 (le_refl _) _ _ h0
+    (BStep.integral none [] ⟨fun _ => True, -2⟩ [] (2 : ℤ) (-2) (fun y hy _ => by
+      have : (y : ℚ) ≤ 2 := by exact_mod_cast hy.2
+      show (-2 : ℚ) ≤ -(y : ℚ); linarith) trivial (by norm_num))
+  exact (bnb_optimal _ _ _ 0 _ h1 rfl 2 (-2) rfl).2.2
+
+/-- The branching hypothesis of `BStep.branch` is discharged by `branch_covers`: for the MILP with
+integer set `I`, boxes as regions and `j ∈ I`, the children cover the node. -/
+theorem branch_step_covers {m n : ℕ} (Q : LPF m n) (I : Fin n → Prop) (B : Box n) (j : Fin n)
+    (hj : I j) (v : ℚ) :
+    (∀ y, Q.MilpFeasible I y → B.Mem y → (B.left j v).Mem y ∨ (B.right j v).Mem y) :=
+  fun y hy hB => branch_covers B y j v hB (hy.2 j hj)
+
+/-- … and the children are sub-boxes of the node when the branching value lies in the node's box
+(`floor(val) ≤ val ≤ upper[j]`, `lower[j] ≤ val ≤ ceil(val)`), the other hypothesis of `BStep.branch`. -/
+theorem branch_children_sub {n : ℕ} (B : Box n) (j : Fin n) (v : ℚ)
+    (hhi : ∀ h, B.hi j = some h → v ≤ h) (hlo : B.lo j ≤ v) :
+    (∀ y, (B.left j v).Mem y → B.Mem y) ∧ (∀ y, (B.right j v).Mem y → B.Mem y) := by
+  have hfl : ((v.floor : ℤ) : ℚ) ≤ v := Rat.floor_le v
+  have hce : v ≤ ((v.ceil : ℤ) : ℚ) := Rat.ceil_le_iff.mp (le_refl _)
+  constructor
+  · intro y hy k
+    refine ⟨(hy k).1, fun h hk => ?_⟩
+    by_cases hkj : k = j
+    · subst hkj
+      have := (hy k).2 (v.floor : ℚ) (by simp [Box.left])
+      exact le_trans this (le_trans hfl (hhi h hk))
+    · exact (hy k).2 h (by simp only [Box.left, Function.update_of_ne hkj]; exact hk)
+  · intro y hy k
+    refine ⟨?_, (hy k).2⟩
+    by_cases hkj : k = j
+    · subst hkj
+      have := (hy k).1
+      simp only [Box.right, Function.update_self] at this
+      exact le_trans hlo (le_trans hce this)
+    · have := (hy k).1
+      simp only [Box.right, Function.update_of_ne hkj] at this
+      exact this
+
+end bnb
+
+end milp
 
 /-! ### Non-vacuity on a concrete instance: the mirror's certificate for
 `max 3x+2y, x+y ≤ 4, x ≤ 2, y ≤ 3` (phase 2 only) and for an LP that needs phase 1 -/
